@@ -3,7 +3,10 @@ LEVEL = "other"
 CONTRACT_MODULES = ["contracts.sorting", "contracts.refcount", "contracts.tasks", "contracts.tasks_proto"]
 FUNCTIONS = ["Manager.mk_fun", "Manager.find_tasks", "Manager.find_taskids", "toposort"]
 # the generated setter starts from the dependencies of its arguments (C05)
-BORROW = [('C05', ['MutableRef._get_dependencies', 'Ref._get_dependencies'])]
+BORROW = [('C05', ['MutableRef._get_dependencies', 'Ref._get_dependencies']),
+          # every line of the generated function is the PRINTED form of a task (target = expression): the printing rules are C11's
+          ('C11', ['Ref.__repr__', 'AttrRef.__repr__', 'ItemRef.__repr__', 'BinOpExpr.__repr__', 'UnaryOpExpr.__repr__', 'LiteralExpr.__repr__',
+                   'EqExpr.__repr__', 'NeExpr.__repr__', 'BuiltinRef.__repr__', 'CallRef.__repr__', 'BinOpExpr.__repr__@operator-tokens'])]
 RAC = "rac/c13.py"
 RAC_BUDGET = {"quick": 60, "thorough": 900}
 RAC_MIN = {"quick": 5387, "thorough": 5387}      # fewer run-time evaluations than this = the harness skipped its work: checker broken, not "held"
